@@ -517,3 +517,59 @@ theorem bind_invB (s : State) (svc : SvcName) (p o : Addr) (dep : Option Nat) (t
             rw [hbal]; exact key
 
 end SM
+
+namespace SM
+open Map
+
+/-- `Slash` keeps the bindings world: the burn lowers the deposit account and the recorded
+    deposit by the same amount; the binding stays available only above its minimum -/
+theorem slash_invB {s s1 : State} {r : ReqId} {svc : SvcName} {p : Addr} {e : List Effect}
+    (h : InvB s) (hs : slash s r svc p = .done s1 e) : InvB s1 := by
+  unfold slash at hs
+  cases hb : Map.get s.bindings (svc, p) with
+  | none => rw [hb] at hs; simp at hs; rw [← hs.1]; exact h
+  | some b =>
+    rw [hb] at hs; dsimp only at hs
+    split at hs; · simp at hs
+    rename_i hle
+    cases hburn : bankBurn s.bank s.cfg.deposit (b.deposit * s.params.slash / decUnit) with
+    | none => rw [hburn] at hs; simp at hs
+    | some bank' =>
+      rw [hburn] at hs; dsimp only at hs
+      have hbal : balOf bank'.bal s.cfg.deposit = balOf s.bank.bal s.cfg.deposit - (b.deposit * s.params.slash / decUnit) := by
+        rw [bankBurn_bal hburn]; simp
+      have hble := bankBurn_le hburn
+      obtain ⟨pr, hpr, _, _⟩ := h.priced _ _ hb
+      split at hs
+      · rename_i hav
+        cases hmd : minDeposit s.params (storedPricing s svc p) with
+        | none => rw [hmd] at hs; simp at hs
+        | some md =>
+          rw [hmd] at hs; dsimp only at hs
+          injection hs with hs1 _
+          subst hs1
+          rw [storedPricing_of_get hpr] at hmd
+          refine BInv.updateBinding (b' := _) h hb ?_ ?_ ?_ ?_
+          · split <;> rfl
+          · split <;> rfl
+          · show balOf bank'.bal s.cfg.deposit + b.deposit = balOf s.bank.bal s.cfg.deposit + _
+            rw [hbal]
+            have : b.deposit * s.params.slash / decUnit ≤ b.deposit := by omega
+            split <;> simp <;> omega
+          · intro hav'
+            split at hav'
+            · simp at hav'
+            · rename_i hnlt
+              refine ⟨pr, md, hpr, hmd, ?_⟩
+              rw [if_neg hnlt]
+              simp only at hnlt ⊢
+              omega
+      · rename_i hav
+        injection hs with hs1 _
+        subst hs1
+        refine BInv.updateBinding h hb rfl rfl ?_ ?_
+        · show balOf bank'.bal s.cfg.deposit + b.deposit = balOf s.bank.bal s.cfg.deposit + (b.deposit - _)
+          rw [hbal]; omega
+        · intro hav'; simp at hav hav'; rw [hav'] at hav; simp at hav
+
+end SM
